@@ -2,3 +2,6 @@
 u1 = u'caf\xe9 \u4e2d'
 s1 = 'plain'
 b1 = b'\x00\xff' if str is bytes else 'x'
+sur = u'\ud800'
+sur2 = u'ok \udc80 \ud83d'
+mixed = (u'\ud800', u'plain', 'byte\xff')
